@@ -1,0 +1,59 @@
+//go:build verif
+
+// Contracts for package memstore, read by the govc verifier (/verif). Comments only.
+package memstore
+
+// Abstract view of a memstore object m, per key content k:
+//   mst(m,k) = 0 absent, 1 tombstoned, 2 present;  mvl(m,k) = the value slice stored for k (meaningful when mst == 2).
+
+//@ ghost mst(m Ref, k Bytes) Int
+//@ ghost mvl(m Ref, k Bytes) Slice
+
+//@ iface MemStoreI.Get
+//@   ensures [absent] mst(this, content(key)) == 0 ==> r1 == KeyNotFound && isnil(r0)
+//@   ensures [tomb] mst(this, content(key)) == 1 ==> r1 == KeyTombstoned && isnil(r0)
+//@   ensures [present] mst(this, content(key)) == 2 ==> r1 == nil && r0 === mvl(this, content(key))
+//@   ensures [range] 0 <= mst(this, content(key)) && mst(this, content(key)) <= 2
+//@   pure
+
+//@ iface MemStoreI.Contains
+//@   ensures r0 <==> mst(this, content(key)) == 2
+//@   pure
+
+//@ iface MemStoreI.IsTombstoned
+//@   ensures r0 <==> mst(this, content(key)) == 1
+//@   pure
+
+//@ iface MemStoreI.Upsert
+//@   ensures [nil-key] isnil(key) ==> r0 == KeyNil && mst(this, content(key)) == old(mst(this, content(key))) && mvl(this, content(key)) === old(mvl(this, content(key)))
+//@   ensures [nil-value] !isnil(key) && isnil(value) ==> r0 == ValueNil && mst(this, content(key)) == old(mst(this, content(key))) && mvl(this, content(key)) === old(mvl(this, content(key)))
+//@   ensures [stored] !isnil(key) && !isnil(value) ==> r0 == nil && mst(this, content(key)) == 2 && mvl(this, content(key)) === value
+//@   modifies mst(this, content(key)), mvl(this, content(key))
+
+//@ iface MemStoreI.Add
+//@   ensures [nil-key] isnil(key) ==> r0 == KeyNil && mst(this, content(key)) == old(mst(this, content(key))) && mvl(this, content(key)) === old(mvl(this, content(key)))
+//@   ensures [nil-value] !isnil(key) && isnil(value) ==> r0 == ValueNil && mst(this, content(key)) == old(mst(this, content(key))) && mvl(this, content(key)) === old(mvl(this, content(key)))
+//@   ensures [exists] !isnil(key) && !isnil(value) && old(mst(this, content(key))) == 2 ==> r0 == KeyAlreadyExists && mst(this, content(key)) == 2 && mvl(this, content(key)) === old(mvl(this, content(key)))
+//@   ensures [stored] !isnil(key) && !isnil(value) && old(mst(this, content(key))) != 2 ==> r0 == nil && mst(this, content(key)) == 2 && mvl(this, content(key)) === value
+//@   modifies mst(this, content(key)), mvl(this, content(key))
+
+//@ iface MemStoreI.Delete
+//@   ensures [absent] old(mst(this, content(key))) == 0 ==> r0 == KeyNotFound && mst(this, content(key)) == 0
+//@   ensures [deleted] old(mst(this, content(key))) != 0 ==> r0 == nil && mst(this, content(key)) == 1
+//@   modifies mst(this, content(key)), mvl(this, content(key))
+
+//@ iface MemStoreI.DeleteIfExists
+//@   ensures [absent] old(mst(this, content(key))) == 0 ==> r0 == nil && mst(this, content(key)) == 0
+//@   ensures [deleted] old(mst(this, content(key))) != 0 ==> r0 == nil && mst(this, content(key)) == 1
+//@   modifies mst(this, content(key)), mvl(this, content(key))
+
+//@ iface MemStoreI.Tombstone
+//@   ensures r0 == nil && mst(this, content(key)) == 1
+//@   modifies mst(this, content(key)), mvl(this, content(key))
+
+//@ iface MemStoreI.EstimatedSizeInBytes
+//@   pure
+
+//@ iface MemStoreI.Size
+//@   ensures r0 >= 0
+//@   pure
